@@ -230,7 +230,13 @@ def single (c : Char) : Option K :=
 /-- `NextToken` behind `skipWhiteSpace` -/
 def next (cs : List Char) : Res :=
   let c := cur cs
-  if isNul c then .eof
+  if isNul c then
+    -- behind the last rune: EOF. A NUL rune INSIDE the data: the pinned code returns EOF there too (everything behind it
+    -- is dropped silently: `nextPinned`, defect witness `nul_truncates_witness`); the model follows the repaired code
+    -- (fixes/C20-scanner-nul-rune.patch): ILLEGAL, so the parser reports an error.
+    match cs with
+    | [] => .eof
+    | _ :: _ => illegal cs
   else if c.toNat == 47 then
     let p := peek cs
     if p.toNat == 47 then
@@ -259,6 +265,10 @@ def next (cs : List Char) : Res :=
       if isIdL c then scanIdent cs
       else if isDigit c then scanNumber cs
       else illegal cs
+
+/-- `NextToken` of the PINNED code (before fixes/C20-scanner-nul-rune.patch): `case 0: return EofToken` wherever the NUL
+rune stands -/
+def nextPinned (cs : List Char) : Res := if isNul (cur cs) then .eof else next cs
 
 /-- a raw token with the line the scanner gives it (number of line feeds skipped as white space so far + 1) -/
 structure RTok where
